@@ -100,3 +100,79 @@ Proof.
   - apply strs_nonnil. destruct l; [discriminate|congruence].
   - rewrite <- forallb_strs. exact Hns.
 Qed.
+
+(* ================================================================== C10: dict round trip *)
+(* one entry: to_dict's output for it, fed to from_dict, stores the original value again *)
+Lemma entry_dict_roundtrip c k v :
+  valid_entry c (k, v) = true ->
+  exists v', to_dict_entry c (k, v) = Ok (k, v') /\ from_dict_step c k v' = Ok (Some v).
+Proof.
+  unfold valid_entry, to_dict_entry, from_dict_step. cbn [fst snd].
+  destruct (lookup c k) as [p|] eqn:L.
+  - destruct (modelled_kind p) as [kd|] eqn:K; [|discriminate].
+    destruct (modelled_kind_inv p kd K) as [Hn Hk]. intros V.
+    destruct kd; destruct Hk as (Ht & Hs & Hd); rewrite Hs; unfold valid_value in V.
+    + (* str *) destruct v; try discriminate. destruct s as [|ch s]; [discriminate|].
+      exists (VStr (ch :: s)). split; [reflexivity|]. cbn [is_blank].
+      unfold add_value. cbv zeta. rewrite ?Hn, Ht, ?Hd. reflexivity.
+    + (* int *) destruct v; try discriminate. exists (VInt z). split; [reflexivity|]. cbn [is_blank].
+      unfold add_value. cbv zeta. rewrite ?Hn, Ht, ?Hd. reflexivity.
+    + (* bool *) destruct v; try discriminate. exists (VBool b). split; [reflexivity|]. cbn [is_blank].
+      unfold add_value. cbv zeta. rewrite ?Hn, Ht. reflexivity.
+    + (* [str], list_serializer *)
+      destruct v; try discriminate. unfold str_list_ok in V. apply andb_true_iff in V as [Vs Vl].
+      exists (VList l). split.
+      * cbn [ser_dict bind]. destruct l as [|x r]; [discriminate|]. destruct x; try discriminate. reflexivity.
+      * assert (B : is_blank (VList l) = false).
+        { destruct l as [|x r]; [discriminate|]. destruct x; try discriminate.
+          destruct s; [destruct r; [discriminate|reflexivity]|reflexivity]. }
+        rewrite B. unfold add_value. cbv zeta. rewrite ?Hn, Ht, ?Hd. cbn [negb].
+        destruct l as [|x r]; [discriminate|]. destruct x; try discriminate.
+        cbn [deser_dict wrap_decode bind]. rewrite (is_str_no_obj _ Vs), Vs. reflexivity.
+    + (* [str], sp_sep_list_serializer *)
+      destruct v; try discriminate. apply andb_true_iff in V as [Vok Vns].
+      pose proof Vok as Vok'. unfold str_list_ok in Vok'. apply andb_true_iff in Vok' as [Vs Vl].
+      exists (VStr (join [sp] (strs l))). split.
+      * cbn [ser_dict]. rewrite (is_str_no_obj _ Vs), Vs. reflexivity.
+      * pose proof (str_list_join_nonempty l Vok) as Hne.
+        destruct (join [sp] (strs l)) as [|ch js] eqn:J; [congruence|]. cbn [is_blank].
+        unfold add_value. cbv zeta. rewrite ?Hn, Ht, ?Hd. cbn [deser_dict wrap_decode bind].
+        rewrite <- J. rewrite (split_join_strs l Vok Vns). reflexivity.
+  - (* a parameter outside the schema *)
+    unfold valid_extra. intros V. apply andb_true_iff in V as [V1 V2].
+    apply negb_true_iff in V1, V2. exists v. cbn [ser_dict bind]. rewrite V1, V2. auto.
+Qed.
+
+Lemma to_dict_entries c m :
+  forallb (valid_entry c) m = true ->
+  exists d, map_res (to_dict_entry c) m = Ok d /\
+            forall acc, from_dict_go c d acc = Ok (store_all m acc).
+Proof.
+  induction m as [|[k v] r IH]; intros V.
+  - exists []. split; [reflexivity|]. reflexivity.
+  - cbn [forallb] in V. apply andb_true_iff in V as [Vkv Vr].
+    destruct (entry_dict_roundtrip c k v Vkv) as (v' & E1 & E2).
+    destruct (IH Vr) as (d & D1 & D2).
+    exists ((k, v') :: d). split.
+    + cbn [map_res]. rewrite E1. cbn [bind]. fold (map_res (to_dict_entry c)). rewrite D1. reflexivity.
+    + intros acc. cbn [from_dict_go]. rewrite E2. cbn [bind store]. rewrite D2. reflexivity.
+Qed.
+
+(* the message after the cycle has exactly the entries of the message before *)
+Definition same_entries (a b : msg) : Prop := forall k, assoc k a = assoc k b.
+
+Theorem dict_roundtrip c m :
+  valid_msg c m = true ->
+  exists d r, to_dict c m = Ok d /\ construct c d = Ok r /\ same_entries r m.
+Proof.
+  unfold valid_msg. intros V. apply andb_true_iff in V as [V Vdef]. apply andb_true_iff in V as [V Vnd].
+  apply andb_true_iff in V as [Vstar Vent]. apply negb_true_iff in Vstar.
+  destruct (to_dict_entries c m Vent) as (d & D1 & D2).
+  exists d, (store_all m (c_default c)). unfold to_dict, construct, from_dict. rewrite Vstar.
+  split; [exact D1|]. split; [apply D2|].
+  intros k. rewrite store_all_assoc by (apply nodup_str_NoDup; exact Vnd).
+  destruct (assoc k m) as [v|] eqn:A; [reflexivity|].
+  destruct (assoc k (c_default c)) as [dv|] eqn:Ad; [|reflexivity]. exfalso.
+  apply assoc_in_keys in Ad. apply in_map_iff in Ad as [[k' v'] [Ek Hin]]. cbn in Ek. subst k'.
+  rewrite forallb_forall in Vdef. apply Vdef in Hin. cbn in Hin. apply has_key_assoc in Hin as [w Hw]. congruence.
+Qed.
